@@ -4,8 +4,12 @@ import (
 	"crypto/ed25519"
 	"fmt"
 	"math/rand"
+	"strings"
+	"time"
 
 	biscuit "github.com/biscuit-auth/biscuit-go/v2"
+	"github.com/biscuit-auth/biscuit-go/v2/datalog"
+	"github.com/biscuit-auth/biscuit-go/v2/parser"
 
 	"verif/harness/ast"
 	"verif/harness/core"
@@ -351,9 +355,21 @@ func c13Run(c *core.C) {
 			c.Violate("build-refused", err.Error(), gen.Texts(s.Blocks))
 			continue
 		}
+		// one history in four runs with a small fact limit, so that some rounds are ABORTED by a
+		// limit error (the limit is a fact count, not a clock: it is deterministic)
+		limits := lib.BigLimits()
+		limitTag := "large limits"
+		if r.Intn(4) == 0 {
+			mf := 3 + r.Intn(8)
+			limits = biscuit.WithWorldOptions(datalog.WithMaxFacts(mf), datalog.WithMaxIterations(100000), datalog.WithMaxDuration(60*time.Second))
+			limitTag = fmt.Sprintf("maxFacts=%d", mf)
+		}
+		newAuthorizer := func() (biscuit.Authorizer, error) {
+			return tok.B.AuthorizerFor(biscuit.WithSingularRootPublicKey(tok.Pub), limits)
+		}
 		var reused biscuit.Authorizer
 		pi := lib.Try(func() {
-			reused, err = tok.B.AuthorizerFor(biscuit.WithSingularRootPublicKey(tok.Pub), lib.BigLimits())
+			reused, err = newAuthorizer()
 		})
 		if pi != nil || err != nil {
 			c.Violate("authorizer-refused", fmt.Sprint(pi, err), nil)
@@ -383,11 +399,48 @@ func c13Run(c *core.C) {
 					content.Facts = nil // a request that states less than the previous one
 				}
 			}
-			mode := r.Intn(3) // 0 authorize, 1 query then authorize, 2 query only
+			mode := r.Intn(4) // 0 authorize, 1 query then authorize, 2 query only, 3 nothing (add, then Reset)
+			// how the content reaches the authorizer
+			entry := r.Intn(4) // 0,1 Add*; 2 AddAuthorizer(parsed text) when printable; 3 LoadPolicies(snapshot)
+			var snapshot []byte
+			if entry == 3 {
+				lib.Try(func() {
+					tmp, err := newAuthorizer()
+					if err == nil {
+						lib.AddContent(tmp, content)
+						snapshot, _ = tmp.SerializePolicies()
+					}
+				})
+				if snapshot == nil {
+					entry = 0
+				}
+			}
+			if entry == 2 && !gen.AuthPrintable(content) {
+				entry = 0
+			}
+			entryName := []string{"Add*", "Add*", "AddAuthorizer(parsed text)", "LoadPolicies(snapshot)"}[entry]
 			run := func(a biscuit.Authorizer) lib.Obs {
 				var o lib.Obs
 				pi := lib.Try(func() {
-					lib.AddContent(a, content)
+					switch entry {
+					case 2:
+						pa, err := parser.FromStringAuthorizer(gen.AuthText(content))
+						if err != nil {
+							lib.AddContent(a, content)
+						} else {
+							a.AddAuthorizer(pa)
+						}
+					case 3:
+						if err := a.LoadPolicies(snapshot); err != nil {
+							o.Err = "load: " + err.Error()
+						}
+					default:
+						lib.AddContent(a, content)
+					}
+					if mode == 3 {
+						o.Class = "NOTHING"
+						return
+					}
 					if mode >= 1 {
 						for _, q := range s.Probes {
 							ks, err := lib.QueryKeys(a, q)
@@ -412,20 +465,22 @@ func c13Run(c *core.C) {
 			}
 			got := run(reused)
 			var fresh biscuit.Authorizer
-			fresh, err = tok.B.AuthorizerFor(biscuit.WithSingularRootPublicKey(tok.Pub), lib.BigLimits())
+			fresh, err = newAuthorizer()
 			if err != nil {
 				break
 			}
 			want := run(fresh)
 			c.Eval(2)
-			history = append(history, map[string]any{"round": n, "content": gen.AuthTexts(content), "mode": []string{"authorize", "query+authorize", "query-only"}[mode], "reused": got.Class, "fresh": want.Class})
+			history = append(history, map[string]any{"round": n, "content": gen.AuthTexts(content), "entry": entryName, "mode": []string{"authorize", "query+authorize", "query-only", "nothing"}[mode], "limits": limitTag, "reused": got.Class, "fresh": want.Class})
 			desc := map[string]any{"token": gen.Texts(tok.Blocks), "rounds": history, "reused": got, "fresh": want}
+			c.Count("rounds_entry:"+entryName, 1)
+			c.Count("rounds_outcome:"+string(want.Class), 1)
 			if got.Class == lib.PANIC || want.Class == lib.PANIC {
 				c.Violate("authorize-panic", fmt.Sprint(got.Panic, want.Panic), desc)
 				break
 			}
-			if got.Class == lib.LIMIT || want.Class == lib.LIMIT {
-				c.Inconc("limit sentinel under large limits")
+			if strings.Contains(got.Err+want.Err, "timeout") || (limitTag == "large limits" && (got.Class == lib.LIMIT || want.Class == lib.LIMIT)) {
+				c.Inconc("limit sentinel under large limits / timeout")
 				break
 			}
 			if got.Class != want.Class {
@@ -459,7 +514,7 @@ func c13Run(c *core.C) {
 
 func c18Run(c *core.C) {
 	r := c.R
-	if c.Idx%4 == 3 {
+	if (c.Idx+c.Idx/16)%4 == 3 { // rotate so that every worker stride gets some of the heavy malformed cases
 		c18Malformed(c)
 		return
 	}
@@ -655,7 +710,7 @@ func init() {
 	core.Register(&core.Prop{
 		ID:    "C13",
 		Level: "exploration",
-		Rule: "each case: 3 histories of 2-6 rounds on ONE authorizer: round n adds random content (perturbation of the previous round's content, or fresh content over the same small universe, sometimes with no facts), runs Query and/or Authorize (any outcome), then Reset; the same round is run on a fresh authorizer for the same token given only round n's content; outcome class and probe answers must agree. Leak sensitivity per round is measured with the reference authorizer R5: R5(previous content + this content) differs from R5(this content). " +
+		Rule: "each case: 3 histories of 2-6 rounds on ONE authorizer: round n adds random content (perturbation of the previous round's content, or fresh content over the same small universe, sometimes with no facts) through one of three entry paths (Add*, AddAuthorizer of parsed text, LoadPolicies of a snapshot), then runs Authorize, Query+Authorize, Query only or NOTHING, then Reset; one history in four uses a small fact limit so that rounds are aborted by a limit error; the same round is run on a fresh authorizer for the same token given only round n's content; outcome class and probe answers must agree. Leak sensitivity per round is measured with the reference authorizer R5: R5(previous content + this content) differs from R5(this content). " +
 			"Non-trivial = distinct leak-sensitive rounds.",
 		Assumptions: []string{"large limits; LIMIT is inconclusive"},
 		NumCases: func(tier string) int {
